@@ -179,6 +179,33 @@ has no production caller. -/
 theorem relationRef_unreachable :
     Gen.Panics.relationRefCallers = [] ∧ relationRefAsString false .plain = .error .relationReference := ⟨rfl, rfl⟩
 
+/-- **Finding F26, fixed**: after `checkRelationReferenceShape` accepted a type restriction, the graph builder's
+`parseThis` finds a node for it — no nil dereference; … -/
+theorem parseThis_no_panic (s : RefShape) (h : shapeGuard s = true) : parseThis s = .ok () := by
+  cases s with
+  | plain => rfl
+  | relation name => simp [shapeGuard] at h; simp [parseThis, parseThisNode, h]
+  | wildcard payload => cases payload <;> simp_all [shapeGuard, parseThis, parseThisNode]
+
+/-- … and without the guard the two empty-oneof shapes panic (the inputs of finding F26) -/
+theorem parseThis_panics_unguarded :
+    parseThis (.relation "") = .error (.index "nil *AuthorizationModelNode in upsertEdge") ∧
+    parseThis (.wildcard false) = .error (.index "nil *AuthorizationModelNode in upsertEdge") := by decide
+
+/-- the guard is in the source, runs before the model graph is built, and tests exactly the two shapes -/
+theorem tie_relation_reference_shape :
+    Gen.Panics.shapeGuardBeforeGraph = true ∧
+    Gen.Panics.shapeGuardConds =
+      ["case *openfgav1.RelationReference_Relation", "if v.Relation == \"\"", "case *openfgav1.RelationReference_Wildcard",
+       "if v.Wildcard == nil"] := ⟨rfl, rfl⟩
+
+/-- **Finding F27, fixed**: every pagination-token parse error of the memory datastore is
+`storage.ErrInvalidContinuationToken` (mapped to 2007 by `HandleError`), never the raw strconv error -/
+theorem tie_memory_token_errors :
+    Gen.Panics.memoryTokenParseErrors =
+      ["return nil, storage.ErrInvalidContinuationToken", "return nil, \"\", storage.ErrInvalidContinuationToken",
+       "return nil, \"\", storage.ErrInvalidContinuationToken"] := rfl
+
 theorem tie_typed_stores : Gen.Panics.computedRelationsStores = ["relation"] := rfl
 
 /-- the summary the check lists: under validation no modelled site panics -/
